@@ -1097,7 +1097,11 @@ func ParseContractFile(path string, pkgPath string) (*ContractFile, error) {
 			callee := f[1]
 			n := 1
 			if i := strings.LastIndex(callee, "["); i >= 0 && strings.HasSuffix(callee, "]") {
-				fmt.Sscanf(callee[i+1:len(callee)-1], "%d", &n)
+				if callee[i+1:len(callee)-1] == "*" {
+					n = -1 // every call of the callee in this function
+				} else {
+					fmt.Sscanf(callee[i+1:len(callee)-1], "%d", &n)
+				}
 				callee = callee[:i]
 			}
 			var ac *AtCall
